@@ -211,7 +211,15 @@ func (encryptor *HashQuery) OnBind(ctx context.Context, statement sqlparser.Stat
 	}
 
 	bindData := mysql.ParseSearchQueryPlaceholdersSettings(statement, encryptor.schemaStore)
-	if len(bindData) > len(indexes) {
+	// bindData also lists the placeholders of tokenized columns of the same statement (those belong to the
+	// observer of consistent tokenization): only the placeholders of searchable columns have to be among the indexes
+	ownPlaceholders := 0
+	for _, setting := range bindData {
+		if setting.IsSearchable() {
+			ownPlaceholders++
+		}
+	}
+	if ownPlaceholders > len(indexes) {
 		return values, false, nil
 	}
 
